@@ -14,6 +14,8 @@ fn place_for(rot: u64) -> Place {
     match rot % 8 {
         0 => Place::Start,
         1 => Place::Mid((rot >> 8) as u8 % 32),
+        // a page boundary somewhere inside the first 400 bytes of the buffer
+        2 | 3 => Place::Cross(1 + ((rot >> 8) % 400) as u16),
         _ => Place::End,
     }
 }
